@@ -19,6 +19,14 @@ RULE = ("dst-boundary: for each chosen zone (quick: ODD_ZONES + every zone that 
         "computes the result for the same instant obtained by conversion from UTC. fixed/utc/naive: random and boundary-aligned wall values over "
         "years 1..9999 (unit edges +-1us, year 1 and 9999 edges) x 9 units x week configurations. date: every month shape, year/decade/century edges, "
         "the first and last days of the range x 6 units x 7 week configurations. week-config-odd: inconsistent (ws, we) pairs, correspondence only. "
+        "week-inner: seed-rotated zones that have a gap over a local midnight (quick 8, thorough 150), one such gap and one overlap touching a "
+        "midnight each x values on ORDINARY days 1-6 days before and after the affected day (noon, 00:00, 23:59:59.999999, random) x unit week x ALL 7 "
+        "week configurations (the affected day before the week / its first or last day / strictly inside the backward or forward day-by-day walk "
+        "/ beyond the value) x provenance; in the strictly-inside configurations both week boundaries are ordinary wall times and the oracle "
+        "demands the whole property (Coq: start_week_dst_partial / end_week_dst_partial). week-walk: previous(ws) / next(we) of the same values on "
+        "their own, compared with the model's dt_previous / dt_next (correspondence only; the intermediate value the week units build on). "
+        "A failing case is filed under a listed finding only if it lies in the finding's region AND the observed results (op, op twice, op on the "
+        "converted value) are exactly what the documented mechanism yields there (stdlib mirror `documented`, independent of the Coq build). "
         "non-trivial = distinct (zone, wall, fold, provenance, unit, week configuration).")
 EXHAUSTIVE = {"quick": False, "thorough": False}
 TRUSTED = ["zoneinfo.ZoneInfo and datetime.date are the specification side of the oracle; Spec/Zone.v is validated against zoneinfo by C02's zone-spec stream and "
@@ -259,6 +267,9 @@ def _week_inner_cases(name, tr, rnd, out, all_days):
                 else:
                     f, prov = 1, ("ctor" if rnd.randrange(3) else "parse")
                 out.append({"stream": "week-inner", "fn": "dt", "args": [name, W, f, fnat, prov, 4, ws, (ws + 6) % 7]})
+                if ws in ((G + 1) % 7, (G + 4 + i) % 7):
+                    # the two walks on their own (previous(ws), next(we)): the intermediate value start_of/end_of('week') build on
+                    out.append({"stream": "week-walk", "fn": "walk", "args": [name, W, f, prov, ws, (ws + 6) % 7]})
 
 
 def _select_transitions(name, rnd, n_other):
@@ -329,13 +340,13 @@ def cases(tier, seed):
         ovl = [t for t in mid if t[2] < t[1] and _midnight_days(t)]
         if not gaps:
             continue
-        picks = rnd2.sample(gaps, min(len(gaps), 3 if thorough else 1))
+        picks = rnd2.sample(gaps, min(len(gaps), 2 if thorough else 1))
         if ovl:
-            picks += rnd2.sample(ovl, min(len(ovl), 2 if thorough else 1))
+            picks += rnd2.sample(ovl, 1)
         for t in picks:
             _week_inner_cases(name, t, rnd2, out, all_days=thorough)
         n_inner += 1
-        if not thorough and n_inner >= 8:
+        if n_inner >= (150 if thorough else 8):
             break
     # ---- fixed offsets, UTC, naive: whole range incl. edges
     specs = [NAIVE, "UTC", 0, 3600, -3600, 19800, -12600, 86340, -86340, 20700]
@@ -520,6 +531,23 @@ def impl_run(cases):
                         res += T.exn_result(e)
                 out.append(res)
                 continue
+            if fn == "walk":
+                spec, W, f, prov, ws, we = a
+                x, tzname, tzobj = _build(pendulum, spec, W, f, prov)
+                if T.wall_of(x) != W or x.fold != f:
+                    out.append([7, 5, T.wall_of(x), x.fold])
+                    continue
+                res = [0]
+                for meth, wd in (("previous", ws), ("next", we)):
+                    try:
+                        r = _guard(lambda: getattr(x, meth)(pendulum.WeekDay(wd)))
+                        res += _grp(pendulum, r, tzname, tzobj)
+                    except _Hang:
+                        res += list(HANG)
+                    except Exception as e:  # noqa
+                        res += T.exn_result(e) + [0, 0]
+                out.append(res)
+                continue
             spec, W, f, fnat, prov, u, ws, we = a
             pendulum.week_starts_at(pendulum.WeekDay(ws))
             pendulum.week_ends_at(pendulum.WeekDay(we))
@@ -594,6 +622,10 @@ def model_calls(c, backend):
         return [("unit_id", [0, 0] + list(a))]
     if fn == "date":
         return [("date_start_end", [0, 0] + list(a))]
+    if fn == "walk":
+        spec, W, f, prov, ws, we = a
+        ux = T.unix_of_wall(W)
+        return [("dt_week_walk", _zone_enc_multi(spec, [(ux - 17 * 86400, ux + 17 * 86400)]) + [_kind(spec), W, f, ws, we])]
     spec, W, f, fnat, prov, u, ws, we = a
     ux = T.unix_of_wall(W)
     lo, hi = bounds(u, ws, W)
@@ -609,7 +641,7 @@ def model_calls(c, backend):
 
 
 def model_result(c, backend, outs):
-    if c["fn"] in ("uid", "date"):
+    if c["fn"] in ("uid", "date", "walk"):
         return outs[0]
     a, b = outs
     if a[0] != 0 or b[0] != 0:
@@ -711,6 +743,8 @@ def oracle(c, backend, r):
             if r[i + 4: i + 6] != [code, v]:
                 return f"{what} is not idempotent"
         return None
+    if fn == "walk":
+        return None        # previous()/next() themselves are C16's subject; here they are compared with the model only
     spec, W, f, fnat, prov, u, ws, we = a
     if not _consistent(ws, we):
         return None
@@ -880,8 +914,13 @@ LEVEL_TEXT = ("Machine-checked Coq theorems about an executable model of DateTim
               "start <= x <= end as instants, the neighbouring microseconds are in other units, idempotent, zone kept, independent of fold; for every "
               "well-formed tz table the same for the non-week units under the hypothesis that the boundary is not a skipped wall time (plus: unique or the "
               "right fold for the neighbour statement); refutations (vm_compute witnesses on the Sao_Paulo / Havana / Apia tables) when the boundary is "
-              "skipped or repeated.  Tied to /repo by translation + correspondence in both backends and a stdlib oracle of the property itself.")
+              "skipped or repeated; for the WEEK unit in every tz table: start_of/end_of('week') are the week's first/last microsecond and idempotent when the "
+              "midnight of the value's day and the week's boundary exist and skipped wall times on the walked days are moved within their day, whatever "
+              "happens to the midnights strictly inside the walk (start_week_dst_partial, end_week_dst_partial, Tehran 2018 witness that previous() alone "
+              "carries the shifted hour).  Tied to /repo by translation + correspondence in both backends and a stdlib oracle of the property itself.")
 DESIGN_REF = "DESIGN.md section 4 C12"
 LEVEL_NOTE = ("Trusted: Coq kernel+VM; Spec/Cal.v, Spec/Zone.v as models of datetime/zoneinfo (validated by C15/C02 streams); hand models Model/StartEnd*.v and "
-              "Model/TzConvert.v (validated by correspondence every run); wf_zone of real tables is evaluated, not proved.")
+              "Model/TzConvert.v (validated by correspondence every run, the week walks dt_previous/dt_next also on their own: stream week-walk); "
+              "wf_zone of real tables is evaluated, not proved.  All streams are inside the Coq model (no oracle-only stream); the classification of "
+              "listed findings uses a stdlib restatement of the model (tools/props/C12.py `documented`) so that it stays tight when the model cannot be built.")
 TECHNIQUE = "Coq proof (calendar bijection + lia, induction over transition tables and loop fuel) + translation + differential correspondence + stdlib oracle"
